@@ -138,7 +138,22 @@ def task_columns(pr, repo):
                 pass      # `if line:` truthiness
             else:
                 other_use.append(_ast.unparse(par)[:60])
-    ok = not other_use and all(sorted(uses.get(f, [])) == sorted(COLS[f]) for f in COLS) and set(uses) <= set(COLS)
+    # column ranges first stored in a local (serial_field = line[6:11]) flow on to the field computed from that local
+    changed = True
+    while changed:
+        changed = False
+        for tgt in [t for t in list(uses) if t not in COLS]:
+            sinks = set()
+            for st in _ast.walk(fi.node):
+                if isinstance(st, _ast.Assign) and any(isinstance(n, _ast.Name) and n.id == tgt and isinstance(n.ctx, _ast.Load)
+                                                       for n in _ast.walk(st.value)):
+                    sinks.add(_ast.unparse(st.targets[0]).replace('self.', ''))
+            if sinks:
+                for sk in sinks:
+                    uses.setdefault(sk, []).extend(uses[tgt])
+                del uses[tgt]
+                changed = True
+    ok = not other_use and all(sorted(set(uses.get(f, []))) == sorted(COLS[f]) for f in COLS) and set(uses) <= set(COLS)
     pr.add(Ground('CO: Atom.set_properties reads `line` only through constant slices: %s; columns 67-80 (segment, element, charge) '
                   'are never read; coordinates come from 31-54, the serial from 7-11' % sorted(COLS.items()), ok,
                   detail='found %r, other uses %r' % (uses, other_use), kind='top', backend='frame-checker'))
